@@ -102,6 +102,108 @@ def list_members(wrapper, path):
     return out
 
 
+def make_wav(path, ms, rate=8000):
+    import wave
+
+    with wave.open(path, "wb") as w:
+        w.setnchannels(1)
+        w.setsampwidth(1)
+        w.setframerate(rate)
+        w.writeframes(b"\x80" * (rate * ms // 1000))
+
+
+def playwav_durations(io, path):
+    from richchk.model.richchk.trig.actions.play_wav_action import PlayWavAction
+    from richchk.model.richchk.trig.rich_trig_section import RichTrigSection
+
+    chk = io.read_chk_from_mpq(path)
+    out = {}
+    for s in chk.chk_sections:
+        if isinstance(s, RichTrigSection):
+            for t in s.triggers:
+                for a in t.actions:
+                    if isinstance(a, PlayWavAction):
+                        out[a.path_to_wav_in_mpq] = a.duration_ms
+    return out
+
+
+def add_playwav(chk, wav_path):
+    from richchk.editor.richchk.rich_chk_editor import RichChkEditor
+    from richchk.editor.richchk.rich_trig_editor import RichTrigEditor
+    from richchk.io.richchk.query.chk_query_util import ChkQueryUtil
+    from richchk.model.richchk.trig.actions.play_wav_action import PlayWavAction
+    from richchk.model.richchk.trig.conditions.always_condition import AlwaysCondition
+    from richchk.model.richchk.trig.player_id import PlayerId
+    from richchk.model.richchk.trig.rich_trig_section import RichTrigSection
+    from richchk.model.richchk.trig.rich_trigger import RichTrigger
+
+    trig = ChkQueryUtil.find_only_rich_section_in_chk(RichTrigSection, chk)
+    t = RichTrigger(_conditions=[AlwaysCondition()], _actions=[PlayWavAction(_path_to_wav_in_mpq=wav_path, _duration_ms=None)], _players={PlayerId.PLAYER_1})
+    return RichChkEditor().replace_chk_section(RichTrigEditor.add_triggers([t], trig), chk)
+
+
+def scenario_stale_duration(wrapper, base, work):
+    """one long-lived IO object: save, replace a sound inside the map, save again — a PlayWav
+    without explicit duration must get the CURRENT file's duration each time"""
+    from richchk.io.mpq.starcraft_audio_files_io import StarCraftAudioFilesIo
+    from richchk.io.mpq.starcraft_mpq_io import StarCraftMpqIo
+
+    io = StarCraftMpqIo(wrapper)
+    aio = StarCraftAudioFilesIo(wrapper)
+    snd = os.path.join(work, "verif_sound.wav")
+    make_wav(snd, 1500)
+    m1 = os.path.join(work, "m1.scx")
+    aio.add_audio_files_to_mpq([snd], base, m1)
+    member = "staredit\\wav\\verif_sound.wav"
+    chk = add_playwav(io.read_chk_from_mpq(m1), member)
+    m2 = os.path.join(work, "m2.scx")
+    io.save_chk_to_mpq(chk, m1, m2)
+    d1 = playwav_durations(io, m2).get(member)
+    make_wav(snd, 2750)  # the sound is re-recorded and imported again under the same name
+    aio.add_audio_files_to_mpq([snd], m1, m1, overwrite_existing=True)
+    snd2 = os.path.join(work, "second_sound.wav")
+    make_wav(snd2, 640)
+    aio.add_audio_files_to_mpq([snd2], m1, m1, overwrite_existing=True)
+    chk2 = add_playwav(add_playwav(io.read_chk_from_mpq(m1), member), "staredit\\wav\\second_sound.wav")
+    m3 = os.path.join(work, "m3.scx")
+    try:
+        io.save_chk_to_mpq(chk2, m1, m3)
+        d = playwav_durations(io, m3)
+        return {"first": d1, "second": d.get(member), "new_sound": d.get("staredit\\wav\\second_sound.wav"), "error": None}
+    except Exception as ex:  # noqa: BLE001
+        return {"first": d1, "second": None, "new_sound": None, "error": type(ex).__name__ + ": " + str(ex)[:120]}
+
+
+def scenario_sparse_wav(wrapper, base, work, free_slots):
+    """a map whose sound table has free slots below used ones, then an audio import"""
+    from richchk.editor.richchk.rich_chk_editor import RichChkEditor
+    from richchk.io.mpq.starcraft_audio_files_io import StarCraftAudioFilesIo
+    from richchk.io.mpq.starcraft_mpq_io import StarCraftMpqIo
+    from richchk.io.richchk.query.chk_query_util import ChkQueryUtil
+    from richchk.model.richchk.str.rich_string import RichString
+    from richchk.model.richchk.wav.rich_wav import RichWav
+    from richchk.model.richchk.wav.rich_wav_section import RichWavSection
+
+    io = StarCraftMpqIo(wrapper)
+    chk = io.read_chk_from_mpq(base)
+    wav = ChkQueryUtil.find_only_rich_section_in_chk(RichWavSection, chk)
+    used = [i for i in range(1, 9) if i not in free_slots][:4]
+    entries = [RichWav(_path_in_chk=RichString("staredit\\wav\\old %d.wav" % i), _index=i) for i in used]
+    chk = RichChkEditor().replace_chk_section(RichWavSection(_wavs=entries), chk)
+    m1 = os.path.join(work, "sparse.scx")
+    io.save_chk_to_mpq(chk, base, m1)
+    snds = []
+    for k in range(2):
+        p = os.path.join(work, "fresh_%d.wav" % k)
+        make_wav(p, 300 + k)
+        snds.append(p)
+    m2 = os.path.join(work, "sparse2.scx")
+    StarCraftAudioFilesIo(wrapper).add_audio_files_to_mpq(snds, m1, m2)
+    back = io.read_chk_from_mpq(m2)
+    table = {w.index: w.path_in_chk.value for s in back.chk_sections if isinstance(s, RichWavSection) for w in s.wavs}
+    return {"before": {i: "staredit\\wav\\old %d.wav" % i for i in used}, "after": table, "new": ["staredit\\wav\\fresh_%d.wav" % k for k in range(2)]}
+
+
 def main():
     spec = json.loads(sys.argv[1])
     work = tempfile.mkdtemp(prefix="vfo_")
@@ -197,6 +299,10 @@ def main():
                 from richchk.io.richchk.richchk_io import RichChkIo
 
                 ChkIo().encode_chk_to_file(RichChkIo().encode_chk(rich), dest, **kw)
+            elif op == "scenario_stale_duration":
+                res["scenario"] = scenario_stale_duration(wrapper, base, work)
+            elif op == "scenario_sparse_wav":
+                res["scenario"] = scenario_sparse_wav(wrapper, base, work, spec.get("free_slots", [0]))
         except BaseException as ex:  # noqa: BLE001
             exc = type(ex).__name__
         res["exception"] = exc
